@@ -1,7 +1,7 @@
 """C03 — ring engine (ChordKV / Trace_ChordKV); see ringcheck.py."""
 import ringcheck
 
-KINDS = set("NoLoss NoGhost Reachable SingleCopy staleread splitwrite".split())
+KINDS = set("NoLoss NoGhost Reachable SingleCopy staleread splitwrite read-not-latest".split())
 
 def run(ck):
     ringcheck.engine(ck, "C03", KINDS)
